@@ -158,6 +158,26 @@ CLAIMS = {
              "raises; TimeoutError on timeout; a start-up that finished in time unaffected; no component activity afterwards although all gates "
              "are opened and the clock advanced; registrations torn down in reverse order with the surrounding context.",
         design_ref="DESIGN.md §5 C07, §4.3, Appendix A.3", note="Trusted as C05. Exact ties between completion and timeout are excluded; two simultaneous failures are outside the statement."),
+    "C08": dict(
+        technique="TLA+ spec Svc.tla (registrations, finalizers, LIFO unwind to the next wait) composed with the monitor P_C08: TLC enumerates "
+                  "programs x schedules and proves the design satisfies the monitor and NoTaskLeft; pairs executed on asyncio/trio under virtual "
+                  "time, traces validated by TLC (Trace_C08)",
+        text="All sequences of <=4 registrations (resources with teardown callbacks, <=2 service tasks) x 11 (teardown action, behaviour) pairs "
+             "(cancel / None / sync or async callable that succeeds or raises; runs forever, ends when signalled, needs time, ends by itself, "
+             "crashes) x root/nested owner x block ending x orders of tasks ending/crashing before or while the finalizer waits. The monitor "
+             "checks: snapshot context, action per teardown_action exactly once with fallback to cancellation, no earlier-registered callback "
+             "before the task AND its own context have finished, nothing running after the block, an escaping exception leaving the root.",
+        design_ref="DESIGN.md §5 C08, §4.2, Appendix A.4", note="Trusted: TLC, the gate driver, virtual time. A crash cancels the teardown itself, then only 'does not vanish' is demanded."),
+    "C09": dict(
+        technique="TLA+ spec Tf.tla composed with the monitor P_C09: TLC enumerates programs of <=2 tasks x all schedules of spawn / started() / "
+                  "spawn+cancel / finish / cancel / leave and proves the design satisfies the monitor and WaitsForTasks; sampled pairs executed on "
+                  "asyncio/trio, traces validated by TLC (Trace_C09)",
+        text="Tasks started with start_task, start_task_soon or start_task with task_status, from the owner, a nested context with an extra "
+             "resource, or a task outside every context; returning, raising or needing time after cancellation; handler none/truthy/falsy; with "
+             "concurrent wait_finished callers. The monitor checks at every quiescent point that all_task_handles() is exactly the unfinished "
+             "tasks, that task contexts are the factory-start snapshot with the factory context as parent, that cancel() ends only its task, "
+             "that wait_finished returns iff the task ended, that teardown waits without cancelling, handler called once, swallowed iff truthy.",
+        design_ref="DESIGN.md §5 C09, §4.2, Appendix A.5", note="Trusted as C08. Quick executes a seeded sample of the TLC-enumerated pairs. Cancelling a task before it calls task_status.started() makes start_task raise in the caller (anyio); that is tolerated."),
 }
 
 PENDING_REASON = "check not built yet in this build session; planned (DESIGN.md §5)"
